@@ -369,6 +369,14 @@ pub fn var_change_optimizer_cons_eval(
                     println!("XXX does not seems_constant");
                 };
 
+                // The substituted form can itself be ((X) . operands): its head is
+                // not an expression and its operands are not evaluated.
+                if let SExp::Pair(new_head, _) = allocator.sexp(new_eval_sexp_args) {
+                    if let SExp::Pair(_, _) = allocator.sexp(new_head) {
+                        return Ok(r);
+                    }
+                }
+
                 proper_list(allocator, new_eval_sexp_args, true)
                     .map(|new_operands| {
                         let mut opt_operands = Vec::new();
